@@ -2,6 +2,7 @@
 REGISTRY = {
     "C04": "machines.knots",
     "C06": "machines.knots",
+    "C09": "machines.weights",
     "C12": "machines.cache",
     "C14": "machines.exchange",
     "C16": "machines.linalg",
